@@ -768,6 +768,8 @@ class Emitter:
                 return
             cargs = self.call_args(args, out, None, True)
             suffix = '' if not cargs else '_%d' % len(cargs)
+            if not cargs and self._is_iter_tag(tag) and e['kind'] == 'CXXTemporaryObjectExpr':
+                suffix = '_value'   # T() : value-initialised iterator
             out.add('bg_%s__ctor%s(%s);' % (tag, suffix, ', '.join([target] + cargs)))
             return
         if 'label' in ct.info:
@@ -932,7 +934,8 @@ class Emitter:
     def ghost_exit(self, out):
         for g in self.ghost.get((self.fi['cname'], 'exit'), []):
             out.add(g)
-        if self.fi['cname'] not in self.inline_set and '__loop' not in self.fi['cname']:
+        if self.fi['cname'] not in self.inline_set and '__loop' not in self.fi['cname'] and \
+                not self.graph_const(self.fi['cname']):
             out.add('bg_ghost_reset_all();')
 
     def value_of(self, e, out, ct):
@@ -1009,6 +1012,8 @@ class Emitter:
             out.add(g)
         if pre:
             pre(out)
+        for g in self.ghost.get((key[0], 'loop%d_body' % key[1]), []):
+            out.add(g)
         tail = self.ghost.get((key[0], 'loop%d_tail' % key[1]), [])
         self.push_cont(bool(tail))
         self.stmt(body, out) if body['kind'] != 'CompoundStmt' else [self.stmt(c, out) for c in inner(body)]
@@ -1214,6 +1219,8 @@ class Emitter:
             for g in self.ghost.get((key[0], 'loop%d_head' % key[1]), []):
                 out.add(g)
             prelude(out)
+            for g in self.ghost.get((key[0], 'loop%d_body' % key[1]), []):
+                out.add(g)
             self.push_cont(True)
             self.stmt(body, out)
             self.pop_cont(out)
@@ -1258,6 +1265,8 @@ class Emitter:
             out.extend(pre)
             out.add('if (!(%s)) break;' % c)
             self.stmt(var, out)
+            for g in self.ghost.get((key[0], 'loop%d_body' % key[1]), []):
+                out.add(g)
             self.push_cont(True)
             self.stmt(body, out)
             self.pop_cont(out)
@@ -1728,6 +1737,29 @@ class Emitter:
                 res.append(self.value_of(a0, out, ct))
         return res
 
+    GRAPH_RECORDS = ('LDG_', 'LUG_', 'DM', 'UM', 'DW', 'UW')
+
+    def graph_const(self, cname):
+        """the callee cannot mutate a graph: every pointer parameter of a graph record type is const"""
+        fi = self.p.func_by_cname.get(cname)
+        if fi is None:
+            return False
+        try:
+            saved = getattr(self, 'cur_ret', None)
+            sig = self.signature(dict(fi))
+            self.cur_ret = saved
+        except ExtractError:
+            return False
+        ps = sig[sig.index('(') + 1:sig.rindex(')')]
+        for p in ps.split(','):
+            p = p.strip()
+            m = re.match(r'^(const )?struct (\w+) \*', p)
+            if m and not m.group(1):
+                rn = m.group(2)
+                if re.match(r'^(LDG|LUG)_\w+$', rn) and not ('_Edges' in rn) or rn in ('DM', 'UM', 'DW', 'UW'):
+                    return False
+        return True
+
     def hoist_shim_args(self, cargs, out):
         res = []
         for a in cargs:
@@ -1746,7 +1778,7 @@ class Emitter:
         if contracted:
             cargs = self.hoist_shim_args(cargs, out)
             call = '%s(%s)' % (cname, ', '.join(cargs))
-            out.add('bg_ghost_reset_all();')
+            out.add('bg_ghost_reset_keep_frontier();' if self.graph_const(cname) else 'bg_ghost_reset_all();')
         if discard and not (throws or is_bg):
             return call
         if discard:
@@ -1767,7 +1799,7 @@ class Emitter:
                     out.add('%s = %s;' % (ct.value_decl(t), call))
                     res = t
             if contracted:
-                out.add('bg_ghost_invalidate();')
+                out.add('bg_ghost_invalidate_keep_frontier();' if self.graph_const(cname) else 'bg_ghost_invalidate();')
             self.exc_check(out)
             return res
         return '(*%s)' % call if is_lv else call
